@@ -56,8 +56,16 @@ func tryScenario(sc *Scenario, prev []string, prop, oracle string, fresh int) *f
 
 func dropTask(sc *Scenario, t int) *Scenario {
 	c := cloneScenario(sc)
+	c.Build = dropTaskFrom(c.Build, t)
+	if c.Phase2 != nil {
+		c.Phase2.Build = dropTaskFrom(c.Phase2.Build, t)
+	}
+	return c
+}
+
+func dropTaskFrom(calls []Call, t int) []Call {
 	var out []Call
-	for _, call := range c.Build {
+	for _, call := range calls {
 		if call.T == t && call.Op != "addnil" && call.Op != "addnoid" && call.Op != "dfs" && call.Op != "validate" && call.Op != "string" {
 			continue
 		}
@@ -77,13 +85,19 @@ func dropTask(sc *Scenario, t int) *Scenario {
 		}
 		out = append(out, call)
 	}
-	c.Build = out
-	return c
+	return out
+}
+
+func allCalls(sc *Scenario) []Call {
+	if sc.Phase2 == nil {
+		return sc.Build
+	}
+	return append(append([]Call(nil), sc.Build...), sc.Phase2.Build...)
 }
 
 func mentions(sc *Scenario) []bool {
 	m := make([]bool, sc.N)
-	for _, c := range sc.Build {
+	for _, c := range allCalls(sc) {
 		switch c.Op {
 		case "add", "dep", "retries", "lookup", "addnofn":
 			m[c.T] = true
@@ -105,6 +119,17 @@ func candidates(sc *Scenario) []*Scenario {
 		}
 	}
 	add(func(c *Scenario) bool { ok := c.Graphs > 1; c.Graphs = 1; return ok })
+	add(func(c *Scenario) bool { ok := c.Phase2 != nil; c.Phase2 = nil; return ok })
+	if sc.Phase2 != nil {
+		for i := range sc.Phase2.Build {
+			i := i
+			add(func(c *Scenario) bool {
+				c.Phase2.Build = append(c.Phase2.Build[:i:i], c.Phase2.Build[i+1:]...)
+				return true
+			})
+		}
+		add(func(c *Scenario) bool { ok := c.Phase2.MaxPar != 0; c.Phase2.MaxPar = 0; return ok })
+	}
 	add(func(c *Scenario) bool {
 		ok := c.Cancel.Kind != "none" && c.Cancel.Kind != ""
 		c.Cancel = CancelSpec{Kind: "none"}
